@@ -230,6 +230,8 @@ where
     }
 
     fn solve(&mut self, timeout: Duration) -> Result<Path<S>, PlanningError> {
+        #[cfg(feature = "verif")]
+        use crate::verif::Instant;
         let mut rng = self
             .rng
             .take()
@@ -314,5 +316,19 @@ where
                 }
             }
         }
+    }
+}
+
+#[cfg(feature = "verif")]
+impl<S: State + Clone, SP: StateSpace<StateType = S>, G: Goal<S>> RRTConnect<S, SP, G> {
+    /// Read-only snapshots of the start tree and the goal tree: (state, parent index).
+    #[allow(clippy::type_complexity)]
+    pub fn verif_trees(&self) -> (Vec<(S, Option<usize>)>, Vec<(S, Option<usize>)>) {
+        let f = |t: &Vec<Node<S>>| {
+            t.iter()
+                .map(|n| (n.state.clone(), n.parent_index))
+                .collect()
+        };
+        (f(&self.start_tree), f(&self.goal_tree))
     }
 }
